@@ -7,14 +7,7 @@ from hdl21.elab.passes.base import ElabPass
 from designlib import Builder
 
 
-class Builder2(Builder):
-    """designlib.Builder plus one more faulty leaf: a port of an Instance that was never added to any Module."""
-
-    def expr(self, m, mi, e):
-        if e[0] == "orphanref":
-            inst = h.Instance(of=self.target(e[1]), name="orphan_inst")
-            return getattr(inst, e[2])
-        return super().expr(m, mi, e)
+from c02hist import HistBuilder as Builder2      # the same builder as harness/impl/c02.py: follows the design's "hist" key
 
 
 def where(e):
